@@ -14,7 +14,7 @@ META = dict(
     functions_encoded=['version.Compare', 'version.verrevcmp', 'version.order', 'version.cisdigit', 'version.cisalpha', 'version.Slice.Len', 'version.Slice.Swap',
                        'version.Slice.Less', 'sort.Sort', 'sort.pdqsort (insertion-sort path)', 'sort.insertionSort'],
     stubs=['math/bits.Len (concrete)'],
-    bounds={'quick': 'laws: any 64-bit epochs, upstream <= 2, revision <= 1 characters over [A-Za-z0-9.+~:-] for each of a, b, c (all length tuples); sort: slices of 3 versions with upstream length <= 2 (all elements the same length), no revision, any epochs',
+    bounds={'quick': 'laws (also on digit runs beyond 64 bits: 1-2 symbolic digits in front of a shared 18-19 digit tail); any 64-bit epochs, upstream <= 2, revision <= 1 characters over [A-Za-z0-9.+~:-] for each of a, b, c (all length tuples); sort: slices of 3 versions with upstream length <= 2 (all elements the same length), no revision, any epochs',
             'thorough': 'laws: upstream <= 3, revision <= 2; sort: slices of 4 versions, upstream <= 2, revision <= 1'},
     outside_claim=['longer components', 'slices of more than 12 elements (pdqsort partitioning / heapsort paths are stdlib code whose contract - correct for any strict weak order - is trusted; the laws are that contract\'s precondition)'],
     assumptions=['sortedness is judged by the reference order (harness specCompare), the permutation property by field-wise equality'])
@@ -25,6 +25,9 @@ def jobs(tier):
     js = []
     for lens in itertools.product(range(b['U'] + 1), range(b['R'] + 1), repeat=3):
         js.append(dict(name='laws_' + '_'.join(map(str, lens)), kind='laws', lens=lens))
+    for tail in (b'0' * 19, b'9' * 19, b'0' * 18):
+        for heads in ((1, 1, 1), (1, 2, 1)) if tier == 'quick' else ((1, 1, 1), (1, 2, 1), (2, 2, 2), (2, 1, 0)):
+            js.append(dict(name='lawslong_%s_%s' % (tail[:1].decode() + str(len(tail)), ''.join(map(str, heads))), kind='lawslong', tail=tail, heads=heads, lens=(0,)))
     for u in range(b['SU'] + 1):
         for r in range(b['SR'] + 1):
             js.append(dict(name='sort%d_%d_%d' % (b['K'], u, r), kind='sort', K=b['K'], u=u, r=r))
@@ -36,6 +39,17 @@ def jobs(tier):
 
 def run_job(env, job):
     args, assume, unsigned = [], [], []
+    if job['kind'] == 'lawslong':
+        # digit runs far beyond 64 bits: symbolic digit heads in front of a long shared concrete digit tail
+        for i, nm in enumerate('abc'):
+            e = z3.BitVec('e' + nm, 64)
+            h = symstr('h' + nm, job['heads'][i])
+            assume += [in_set(c, b'0123456789') for c in h]
+            unsigned.append(len(args))
+            args += [e, Str(tuple(h) + tuple(job['tail'])), Str()]
+        assume += [args[0] == args[3], args[3] == args[6]]
+        return run_harness(env, PKG, 'VerifC02Laws', args, assume, unwind=4 * 24 + 8, merge=True, timeout_ms=900000, interp_kw=dict(merge_ints=False),
+                           unsigned=unsigned, sample='order laws on three versions with equal epochs whose upstream is %r symbolic digits followed by %r' % (job['heads'], job['tail'].decode()))
     if job['kind'] == 'laws':
         for i, nm in enumerate('abc'):
             u, r = job['lens'][2 * i], job['lens'][2 * i + 1]
